@@ -37,7 +37,7 @@ def run(ctx):
         return
     w = 4 if ctx.quick else 8
     # 1. the specification decides the property
-    depth = 4 if ctx.quick else 6
+    depth = 4 if ctx.quick else 5
     cfg = ctx.path("check.cfg")
     open(cfg, "w").write(cfg_text(dict(BASE, MAXOPS=depth, TABLED="TRUE", NB=0), ["SpecOK"], extra="VIEW view\n"))
     rc = tlc_must_pass(ctx, "adt/LruCache", cfg=cfg, workers=w, deadlock=False, tag="check", timeout=3000)
@@ -129,7 +129,7 @@ def run(ctx):
         uniq = list({json.dumps(x, sort_keys=True): x for x in cs}.values())
         # prefer histories with several exact queries
         uniq.sort(key=lambda x: -sum(1 for o in x["ops"] if o["op"] == "query" and o["b"] == 1))
-        take = uniq[: (50 if ctx.quick else 600)]
+        take = uniq[: (50 if ctx.quick else 300)]
         e2e_gen.append({"listmode": lm, "histories_generated": len(uniq), "histories_replayed": len(take)})
         e2e_cases += take
     write_ndjson(ctx.path("e2e.ndjson"), e2e_cases)
